@@ -132,6 +132,10 @@ class Workspace(AbstractContextManager):
         self.h5file = h5file
         self.open()
 
+    def _update_project_attributes(self):
+        """Write the project attributes (header) of an opened workspace to the file."""
+        self._io_call(H5Writer.write_attributes, self, mode="r+")
+
     def activate(self):
         """Makes this workspace the active one.
 
@@ -228,6 +232,7 @@ class Workspace(AbstractContextManager):
     @contributors.setter
     def contributors(self, value: list[str]):
         self._contributors = np.asarray(value, dtype=h5py.special_dtype(vlen=str))
+        self._update_project_attributes()
 
     def copy_to_parent(
         self,
@@ -684,6 +689,7 @@ class Workspace(AbstractContextManager):
     @distance_unit.setter
     def distance_unit(self, value: str):
         self._distance_unit = value
+        self._update_project_attributes()
 
     def fetch_array_attribute(self, entity: Entity, key: str = "cells") -> np.ndarray:
         """
@@ -973,6 +979,7 @@ class Workspace(AbstractContextManager):
     @ga_version.setter
     def ga_version(self, value: str):
         self._ga_version = value
+        self._update_project_attributes()
 
     def get_entity(self, name: str | uuid.UUID) -> list[Entity | PropertyGroup | None]:
         """
@@ -1218,7 +1225,7 @@ class Workspace(AbstractContextManager):
         proj_attributes = self._io_call(H5Reader.fetch_project_attributes, mode="r")
 
         for key, attr in proj_attributes.items():
-            setattr(self, self._attribute_map[key], attr)
+            setattr(self, f"_{self._attribute_map[key]}", attr)
 
         self.fetch_or_create_root()
 
@@ -1408,6 +1415,7 @@ class Workspace(AbstractContextManager):
     @version.setter
     def version(self, value: float):
         self._version = value
+        self._update_project_attributes()
 
     @property
     def workspace(self) -> Workspace:
